@@ -432,5 +432,5 @@ impl<T: ?Sized + Trace + Debug> Debug for Weak<T> {
 }
 
 #[cfg(kani)]
-#[path = "/verif/kani/weak_proofs.rs"]
-pub(crate) mod verif_proofs; // verification hook (H2): specs and contract harnesses live in /verif
+#[allow(dead_code, unused_imports, unused_variables, unused_macros, static_mut_refs)]
+pub(crate) mod verif_proofs { include!(concat!(env!("VERIF_KANI_DIR"), "/weak_proofs.rs")); } // verification hook (H2): specs and contract harnesses live in /verif
